@@ -9,6 +9,7 @@
 //!                >= 2000 correct reply
 //!     noconn   request on an enabled channel whose peer port is closed
 //!     shutdown request in flight (peer silent), then the channel is destroyed (C ABI) / shut down (Rust API)
+//!     shutdownq request 1 in flight, requests 2 and 3 queued, then the runtime is destroyed
 //!     qfull    queue of size 1: request 1 in flight, request 2 queued, request 3 rejected; then destroy
 //!     badparam <extra> = null | zero | overflow | limit | nullitems | toomany | empty
 //!     states   client state listener until Connected, then destroy
@@ -488,6 +489,28 @@ fn scenario(rt: &tokio::runtime::Runtime, ffi_rt: &FfiRuntime, line: &str) -> St
             let r2 = rt.block_on(async { tokio::time::timeout(Duration::from_secs(10), rust_request(&ch, op, 1000, n, 1000)).await });
             let r2 = r2.unwrap_or_else(|_| "pending-forever".into());
             format!("ffi:{rc}/before={before}/{ev};{rc2}/{ev2} rust:{r};{r2}")
+        }
+        "shutdownq" => {
+            // the runtime is destroyed while one request is in flight AND two more wait in the queue
+            let peer = start_peer(rt);
+            let own = ffi_runtime(2);
+            let c = ffi_channel(&own, peer.port, 4);
+            if !ffi_connected(&c) {
+                return "FAIL:ffi never connected".into();
+            }
+            let (rc1, s1) = unsafe { ffi_request(c.ch, op, 1000, n, 60_000, false) };
+            wait_until(Duration::from_secs(5), || peer.seen.load(Ordering::SeqCst) >= 1);
+            let (rc2, s2) = unsafe { ffi_request(c.ch, op, 1000, n, 60_000, false) };
+            let (rc3, s3) = unsafe { ffi_request(c.ch, op, 1000, n, 60_000, false) };
+            let before = s1.lock().unwrap().events.len() + s2.lock().unwrap().events.len() + s3.lock().unwrap().events.len();
+            unsafe { ffi::rodbus_runtime_destroy(own.0) };
+            let e1 = slot_events(s1, Duration::from_secs(10));
+            let e2 = slot_events(s2, Duration::from_secs(10));
+            let e3 = slot_events(s3, Duration::from_secs(10));
+            unsafe { ffi::rodbus_client_channel_destroy(c.ch) };
+            std::thread::sleep(Duration::from_millis(40));
+            let after = format!("{}/{}/{}", s1.lock().unwrap().events.len(), s2.lock().unwrap().events.len(), s3.lock().unwrap().events.len());
+            format!("ffi:{rc1}/{e1};{rc2}/{e2};{rc3}/{e3};before={before};after-destroy={after} rust:n/a")
         }
         "qfull" => {
             let peer = start_peer(rt);
